@@ -487,7 +487,10 @@ func (a *AndExpr) IsNullable() bool {
 
 // InitialNames returns names of nodes with which an expression can begin.
 func (a *AndExpr) InitialNames() map[string]struct{} {
-	return make(map[string]struct{})
+	// A predicate evaluates its expression at the current position, so a
+	// rule invoked at the start of that expression is invoked at the start
+	// of the predicate as well.
+	return a.Expr.InitialNames()
 }
 
 // NotExpr is a zero-length matcher that is considered a match if the
@@ -527,7 +530,10 @@ func (n *NotExpr) IsNullable() bool {
 
 // InitialNames returns names of nodes with which an expression can begin.
 func (n *NotExpr) InitialNames() map[string]struct{} {
-	return make(map[string]struct{})
+	// A predicate evaluates its expression at the current position, so a
+	// rule invoked at the start of that expression is invoked at the start
+	// of the predicate as well.
+	return n.Expr.InitialNames()
 }
 
 // ZeroOrOneExpr is an expression that can be matched zero or one time.
